@@ -79,7 +79,8 @@ RefDI == LET names == FirstNames(Recog, {})
          IN [rcsid |-> IF rcs = <<>> THEN <<>> ELSE <<rcs[Len(rcs)][2]>>,
              dist  |-> [i \in 1..Len(SelectSeq(names, LAMBDA x : ~IsPatch(x))) |-> RefEntry(SelectSeq(names, LAMBDA x : ~IsPatch(x))[i])],
              patch |-> [i \in 1..Len(SelectSeq(names, IsPatch)) |-> RefEntry(SelectSeq(names, IsPatch)[i])]]
-FoldIsRef == Mode = "lines" => Parsed = RefDI
+FoldIsRef == Mode = "lines" => /\ Parsed = RefDI
+                               /\ FoldLines(lines, 1, EmptyDI) = FoldLinesRef(lines, 1, EmptyDI)     \* fold = recursion
 NoOps == Mode = "lines" => FromBytes(JoinTerm(SelectSeq(lines, LAMBDA l : ~Ignorable(l)), <<NL>>)) = Parsed
 
 DIJson(x) == [rcsid |-> x.rcsid, dist |-> x.dist, patch |-> x.patch]
